@@ -1,5 +1,5 @@
 """Recorded driver logs -> TLA+ trace literals for ApiTrace.tla."""
-from tlagen import tla, TMap, TSet, Raw, conv_machine, MAXI
+from tlagen import tla, TMap, TSet, Raw, conv_machine, MAXI, scalar_cell
 
 
 def rc_names(m):
@@ -17,9 +17,9 @@ def conv_store(out, m):
         c = out[n]
         if o['type'] in ('int', 'bool', 'enum'):
             v = c['v']
-            if not (-MAXI - 1 <= v <= MAXI):
+            if not (-(1 << 63) <= v < (1 << 64)):
                 raise WideValue(n)
-            d[n] = {'v': v}
+            d[n] = scalar_cell(v)
         else:
             size = o['size'] if o['type'] == 'str' else {"int8_t": 1, "uint8_t": 1, "int16_t": 2, "uint16_t": 2, "int32_t": 4,
                                                          "uint32_t": 4, "int64_t": 8, "uint64_t": 8, "float": 4, "double": 8}.get(o['raw'], 0)
